@@ -261,20 +261,25 @@ static System make_system(long id, const Plan & p, Rng & g)
   y.r.setZero(m);
   int kind = p.kind;
   if (kind == 2 && (m < 2 || n < 2)) kind = 1;
+  // SCALE stratum of J: 1, 1e-3, 1e-7, 1e3 (powers of two for the integer kind, so that integer relations,
+  // dependencies and J'r stay exact); r of size 1 or of the size of J
+  const int scl_tab[] = {0, 0, 1, 2, 2, 3};
+  const int sclass    = p.friendly ? scl_tab[g.idx(5)] : scl_tab[g.idx(6)];
+  const double sc10[] = {1.0, 1e-3, 1e-7, 1e3};
+  const double sc2[]  = {1.0, 0x1p-10, 0x1p-23, 0x1p10};
+  const double sc     = (kind == 0) ? sc2[sclass] : sc10[sclass];
+  const double rs     = (g.idx(3) == 0) ? sc : 1.0;
   if (kind == 0) {
     y.kind = "int";
     for (int i = 0; i < m; ++i)
-      for (int j = 0; j < n; ++j) y.J(i, j) = static_cast<double>(g.idx(7) - 3);
-    for (int i = 0; i < m; ++i) y.r(i) = static_cast<double>(g.idx(11) - 5);
+      for (int j = 0; j < n; ++j) y.J(i, j) = sc * static_cast<double>(g.idx(7) - 3);
+    for (int i = 0; i < m; ++i) y.r(i) = rs * static_cast<double>(g.idx(11) - 5);
   } else if (kind == 1) {
     y.kind             = "rnd";
-    const double scs[] = {1.0, 1.0, 1e-3, 1e3};
-    const double sc    = scs[g.idx(4)];
     const double dens[] = {1.0, 1.0, 0.6, 0.25};
     const double den    = dens[g.idx(4)];
     for (int i = 0; i < m; ++i)
       for (int j = 0; j < n; ++j) y.J(i, j) = (g.uni(0, 1) < den) ? sc * g.uni(-1, 1) : 0.0;
-    const double rs = (g.idx(3) == 0) ? sc : 1.0;
     for (int i = 0; i < m; ++i) y.r(i) = rs * g.uni(-1, 1);
   } else {
     y.kind = "svd";
@@ -289,8 +294,8 @@ static System make_system(long id, const Plan & p, Rng & g)
     const int dec = g.idx(7);   // sigma from 1 down to 10^-dec
     MatD S        = MatD::Zero(m, n);
     for (int i = 0; i < k; ++i) S(i, i) = std::pow(10.0, -dec * (k > 1 ? static_cast<double>(i) / (k - 1) : 0.0));
-    y.J = U * S * W.transpose();
-    for (int i = 0; i < m; ++i) y.r(i) = g.uni(-1, 1);
+    y.J = sc * (U * S * W.transpose());
+    for (int i = 0; i < m; ++i) y.r(i) = rs * g.uni(-1, 1);
   }
   // rank pattern
   if (p.pat == 1 && n >= 2) {
@@ -303,7 +308,7 @@ static System make_system(long id, const Plan & p, Rng & g)
     if (kind == 0 && n >= 3 && g.idx(2) == 0) {
       do { l = g.idx(n); } while (l == j || l == k);
       b = as[g.idx(4)];
-      y.J.col(j) = a * y.J.col(k) + b * y.J.col(l);   // exact in small integers
+      y.J.col(j) = a * y.J.col(k) + b * y.J.col(l);   // exact: small integers times a power of two
       ++l;
     } else {
       y.J.col(j) = a * y.J.col(k);   // exact in binary floating point
@@ -331,13 +336,17 @@ static System make_system(long id, const Plan & p, Rng & g)
     const int i = g.idx(m);   // r supported on a zero row of J: J' r = 0 exactly
     y.J.row(i).setZero();
     y.r.setZero();
-    y.r(i) = (kind == 0) ? 3.0 : g.uni(-1, 1);
-    if (y.dep[0] == 0 && p.pat == 1) {}   // (dependency, if any, is preserved by zeroing a row)
+    y.r(i) = rs * ((kind == 0) ? 3.0 : g.uni(-1, 1));   // (a dependency, if any, is preserved by zeroing a row)
   }
   // scaling vector
   y.d.resize(n);
-  const int dv = p.friendly ? g.idx(2) : g.idx(6);
-  for (int i = 0; i < n; ++i) y.d(i) = (dv == 0) ? 1.0 : g.loguni(0.1, 10.0);
+  // variants: ones / log-uniform (both times a scale 1, 1e-4 or 1e3) / one entry 1e-6 / one entry 1e3 / both /
+  // clamped column norms; for the smallest J scale the clamped column norms (what the caller passes) half of the time
+  int dv = p.friendly ? g.idx(2) : g.idx(6);
+  if (!p.friendly && sclass == 2 && g.idx(2) == 0) dv = 5;
+  const double ds_tab[] = {1.0, 1.0, 1e-4, 1e3};
+  const double ds       = (p.friendly || dv > 1) ? 1.0 : ds_tab[g.idx(4)];
+  for (int i = 0; i < n; ++i) y.d(i) = ds * ((dv == 0) ? 1.0 : g.loguni(0.1, 10.0));
   if (dv == 2 || dv == 4) y.d(g.idx(n)) = 1e-6;
   if (dv == 3 || dv == 4) y.d(g.idx(n)) = 1e3;
   if (dv == 5) {
@@ -345,6 +354,12 @@ static System make_system(long id, const Plan & p, Rng & g)
     for (int i = 0; i < n; ++i) y.d(i) = std::clamp(y.J.col(i).norm(), 1e-6, 1e32);
   }
   y.lam   = pick_reg(g, static_cast<int>(id));
+  y.Delta = pick_reg(g, static_cast<int>(id * 5 + 3));
+  if (!p.friendly && sclass == 2 && g.idx(2) == 0) {
+    // small J: weak regularisation half of the time, so that J'J is not negligible against lambda D^2
+    y.lam   = pick_reg(g, g.idx(3));        // 1e-6 .. 1e-4
+    y.Delta = pick_reg(g, 10 + g.idx(3));   // 1e4 .. 1e6
+  }
   if (p.friendly) {
     // only a proposal: the specification recomputes the certified condition bound exactly
     for (int t = 0; t < 40; ++t) {
@@ -353,7 +368,6 @@ static System make_system(long id, const Plan & p, Rng & g)
       y.lam = pick_reg(g, g.idx(13 * 3));
     }
   }
-  y.Delta = pick_reg(g, static_cast<int>(id * 5 + 3));
   return y;
 }
 
